@@ -1,12 +1,26 @@
 import LunaVerif.Core.Proto
 import LunaVerif.Model.Periph.Ila
+import LunaVerif.Model.Periph.IlaStream
 open LunaVerif LunaVerif.Proto LunaVerif.Ila
 
-/-- config line: `# depth pretrigger`; input line: `trigger inputs captured_sample_number`;
-output line: `sampling complete captured_sample`. -/
+/-- which class is being co-simulated (first config int) -/
+inductive DState
+  | core   (c : Config) (s : Ila.State)
+  | stream (c : Config) (s : IlaStream.State)
+
+/-- config line: `# kind depth pretrigger` (kind 0 = IntegratedLogicAnalyzer, 1 = StreamILA).
+kind 0: input line `trigger inputs captured_sample_number`, output line `sampling complete captured_sample`;
+kind 1: input line `trigger inputs stream.ready`, output line `sampling complete valid payload first last`. -/
 def main : IO Unit :=
-  runDriver (σ := Config × State)
-    (fun cfg => let c : Config := ⟨fld cfg 0, fld cfg 1⟩; (c, init c))
-    (fun (c, s) i =>
-      let (s', o) := step c s ⟨n2b (fld i 0), fld i 1, fld i 2⟩
-      ((c, s'), [b2n o.sampling, b2n o.complete, o.captured]))
+  runDriver (σ := DState)
+    (fun cfg =>
+      let c : Config := ⟨fld cfg 1, fld cfg 2⟩
+      if fld cfg 0 = 1 then .stream c (IlaStream.init c) else .core c (init c))
+    (fun st i =>
+      match st with
+      | .core c s =>
+        let (s', o) := step c s ⟨n2b (fld i 0), fld i 1, fld i 2⟩
+        (.core c s', [b2n o.sampling, b2n o.complete, o.captured])
+      | .stream c s =>
+        let (s', o) := IlaStream.step c s ⟨n2b (fld i 0), fld i 1, n2b (fld i 2)⟩
+        (.stream c s', [b2n o.sampling, b2n o.complete, b2n o.valid, o.payload, b2n o.first, b2n o.last]))
